@@ -244,6 +244,25 @@ where
         Ok(())
     }
 
+    /// Removes the vring's current kick fd (if any) from the epoll instance of its worker.
+    fn unregister_vring_kick(&self, vring: &T::Vring, index: u8) {
+        let vring_state = vring.get_ref();
+        if let Some(fd) = vring_state.get_kick() {
+            for (thread_index, queues_mask) in self.queues_per_thread.iter().enumerate() {
+                let shifted_queues_mask = queues_mask >> index;
+                if shifted_queues_mask & 1u64 == 1u64 {
+                    let evt_idx = queues_mask.count_ones() - shifted_queues_mask.count_ones();
+                    let _ = self.handlers[thread_index].unregister_event(
+                        fd.as_raw_fd(),
+                        EventSet::IN,
+                        u64::from(evt_idx),
+                    );
+                    break;
+                }
+            }
+        }
+    }
+
     /// Helper to check if VirtioFeature enabled
     fn check_feature(&self, feat: VhostUserVirtioFeatures) -> VhostUserResult<()> {
         if self.acked_features & feat.bits() != 0 {
@@ -473,10 +492,20 @@ where
         // does File, so this is safe.
         // Ideally, we'd have a generic way to refer to a uniquely-owned fd,
         // such as that proposed by Rust RFC #3128.
+        // The ring may already be started, with its current kick fd watched by a worker: stop
+        // watching the old descriptor before it is replaced (and closed) ...
+        let started = vring.get_ref().get_queue().ready();
+        if started {
+            self.unregister_vring_kick(vring, index);
+        }
+
         vring.set_kick(file);
 
         if self.vring_needs_init(vring) {
             self.initialize_vring(vring, index)?;
+        } else if started {
+            // ... and watch the new one if the ring is enabled, so that kicks on it are not lost.
+            self.update_vring_registration(vring, index)?;
         }
 
         Ok(())
